@@ -622,10 +622,13 @@ func (s *Service) PutRetrieveTraffic(peer boson.Address, traffic *big.Int) error
 	chainTraffic := s.getTraffic(chainAddress)
 	chainTraffic.Lock()
 	chainTraffic.retrieveTraffic = new(big.Int).Add(chainTraffic.retrieveTraffic, traffic)
+	// persist while the peer is locked: otherwise two updates can reach the
+	// store in the opposite order and the older total overwrites the newer one
+	err := s.chequeStore.PutRetrieveTraffic(chainAddress, chainTraffic.retrieveTraffic)
 	chainTraffic.Unlock()
 	go s.PublishHeader()
 	go s.PublishTrafficCheque(chainAddress)
-	return s.chequeStore.PutRetrieveTraffic(chainAddress, chainTraffic.retrieveTraffic)
+	return err
 }
 
 func (s *Service) PutTransferTraffic(peer boson.Address, traffic *big.Int) error {
@@ -637,10 +640,12 @@ func (s *Service) PutTransferTraffic(peer boson.Address, traffic *big.Int) error
 	localTraffic := s.getTraffic(chainAddress)
 	localTraffic.Lock()
 	localTraffic.transferTraffic = new(big.Int).Add(localTraffic.transferTraffic, traffic)
+	// persist while the peer is locked (see PutRetrieveTraffic)
+	err := s.chequeStore.PutTransferTraffic(chainAddress, localTraffic.transferTraffic)
 	localTraffic.Unlock()
 	go s.PublishHeader()
 	go s.PublishTrafficCheque(chainAddress)
-	return s.chequeStore.PutTransferTraffic(chainAddress, localTraffic.transferTraffic)
+	return err
 }
 
 // AvailableBalance Get actual available balance
